@@ -30,8 +30,8 @@ from harness.corr import versions_lib as L
 PROPERTIES = ["C17"]
 ORDER = 45
 
-# unknown function ids (KeyError escaping the apply loop) are part of the model (`Ev.unknownId`) and compared
-# here; that path is the one defect D9 / property C12 is about - switch off if its repair changes it.
+# unknown function ids: since the D9 repair the KeyError of `_idToMethod[funcID]` is caught in `__doApplyCommand`,
+# logged and returned as the command's result (model: `Ev.unknownId` + `Res.keyError`, entry consumed, loop goes on).
 INCLUDE_UNKNOWN_IDS = True
 
 SIG_AFTER = "syncobj.applyLogEntries:applied-after-unsupported-version"
@@ -211,6 +211,8 @@ class Runner(object):
                 self.cov["ev_" + e[0]] += 1
                 if e[0] == "cb":
                     self.cov["cb_ok" if e[3] else "cb_discarded"] += 1
+                    if isinstance(e[2], list) and e[2] and e[2][0] == "keyError":
+                        self.cov["cb_keyError"] += 1
             if any(e[0] == "verChanged" for e in ev):
                 self._monitor_table("apply")
         elif k == "commit":
@@ -591,6 +593,13 @@ def _directed(argc):
             st = {"enabled": 0, "tableVer": 0, "lastApplied": 1, "commit": 5, "log": log,
                   "waiting": [[3, [[sub_term, 77]]], [4, [[1, 78], [2, 79]]]]}
             out.append(({"N": new, "O": old}, [["node", name, st], ["apply"], ["apply"], ["setver", v], ["setver", 0]], "mem"))
+    # unknown method id in the middle of a batch, subscribers of the same and of another term on it (D9 path)
+    log = [[["noop"], 1, 0], [["reg", 0, 9201], 2, 1], [["reg", 99, 9202], 3, 1], [["reg", 1, 9203], 4, 1], [["ver", 1], 5, 1],
+           [["reg", 7, 9204], 6, 1]]
+    for name in ("N", "O"):
+        st = {"enabled": 0, "tableVer": 0, "lastApplied": 1, "commit": 6, "log": log,
+              "waiting": [[3, [[1, 81], [2, 82]]], [6, [[1, 83]]]]}
+        out.append(({"N": new, "O": old}, [["node", name, st], ["apply"], ["apply"]], "mem"))
     # dump after the switch, reload on same and on older code, in every mode
     for mode in ("mem", "file", "user"):
         log = [[["noop"], 1, 0], [["reg", 1, 9101], 2, 1], [["ver", 1], 3, 1], [["reg", 2, 9102], 4, 1]]
@@ -686,7 +695,7 @@ def run(ctx):
     floors = ["ev_ran", "ev_wrongVer", "ev_verChanged", "ev_blocked", "cb_ok", "cb_discarded", "setver_tooHigh",
               "setver_tooLow", "setver_queued", "dump_made", "dump_none", "op_load", "op_compact", "mode_file", "mode_user",
               "m1_checked", "m3_checked", "m4_checked", "follower_from_dump", "follower_from_log", "load_after_switch",
-              "load_enabled_gt_self", "load_clear_kept", "load_clear_installed"] + (["ev_unknownId"] if INCLUDE_UNKNOWN_IDS else [])
+              "load_enabled_gt_self", "load_clear_kept", "load_clear_installed"] + (["ev_unknownId", "cb_keyError"] if INCLUDE_UNKNOWN_IDS else [])
     missed = [f for f in floors if not cov.get(f)]
     if missed and not disagreements and not violations:
         res["inconclusive"] = "coverage floor missed: %s" % missed
